@@ -28,6 +28,9 @@ THEOREMS = [
     "Nix.C19.C19_foreign_calls",
     "Nix.C19.C19_no_foreign_elsewhere",
     "Nix.C19.C19_delegates_are_entity_members",
+    "Nix.C19.C19_delegating_is_two_calls",
+    "Nix.C19.C19_no_delegation_without_foreign",
+    "Nix.C19.C19_delegating_switch_off",
     "Nix.C19.C19_created_fixed",
     "Nix.C19.C19_monotone",
     "Nix.C19.C19_monotone_from_open",
@@ -98,7 +101,10 @@ ASSUMPTIONS = [
     "matrix and in the random histories; links of the copies (which object a copied tag refers to) are not modelled",
     "a call on a sub-object is modelled as a call on behalf of an entity: dimension setters / link methods on behalf of "
     "the array that owns the dimension, the label / unit setters of a LINKED dimension (DimensionLink) on behalf of the "
-    "linked data object; which object a link points to is not modelled (the harness names it)",
+    "linked data object; which object a link points to is not modelled (the harness names it); the call as the program "
+    "makes it (`dim.label = v` on the linked dimension, `section[name] = v` for a name in use) is `callDelegating`, "
+    "admitted only through a name in the generated `foreign` list and proved equal to the two-call history "
+    "(C19_delegating_is_two_calls); the delegating histories of the correspondence run it against the implementation",
     "the switch as the user set it (open argument, assignment, re-open argument) is what the oracle judges by; the "
     "File object's own value is compared with the model after every operation",
     "uuid4 freshness; HDF5 attribute storage modelled, not verified",
@@ -584,6 +590,10 @@ class Session:
             elif name == "copy":
                 self.do_copy(op[1], op[2], args)
             elif name == "call":
+                self.do_call(op[1], op[2], op[3], op[4], args)
+            elif name == "call_delegating":
+                # the call as the program makes it (its body hands work to a member of another entity, which the
+                # op names for the model)
                 self.do_call(op[1], op[2], op[3], op[4], args)
             elif name == "force_created":
                 self.do_force("created", op[1], op[2], args.get("h", 0))
@@ -1670,6 +1680,49 @@ def refusal_histories(rng, variants=None, dist=None, sample=None):
     return out
 
 
+def delegating_histories(rng):
+    """calls whose body hands work to a stamping member of ANOTHER entity, as the program makes them (model:
+    `callDelegating`, admitted through the generated `foreign` names only): `section[name] = v` for a name in use
+    (`property.values = v`), `dim.label = ...` / `dim.unit = ...` on a dimension linked to an array / a frame column
+    (the DimensionLink setter stamps the linked object) - switch on and off, accepted and refused"""
+    out = []
+    for auto in (True, False):
+        clock = rng.randrange(0, T2100 - 10 ** 7)
+        ops = scene_ops(clock, auto)
+        t = [clock]
+
+        def tick():
+            t[0] += rng.choice([1, 2, 59, 3600])
+            return ["set_clock", t[0]]
+        dl = lambda e, via, m, inp, d, dvia, f, finp, **a: ["call_delegating", e, via, m, inp, d, dvia, f, finp, a]
+        ops += [tick(), dl(2, None, "__setitem__", "good", 12, None, "values", "good", how="setitem", key="p1",
+                           value=[4, 5]),
+                tick(), dl(2, None, "__setitem__", "early", 12, None, "values", "early", how="setitem", key="p1",
+                           value=["a", 1]),
+                # array 4 gets two range dimensions: one linked to array 5, one to column 1 of frame 7
+                tick(), ["call", 4, None, "append_range_dimension", "good", _call()],
+                tick(), ["call", 4, None, "append_range_dimension", "good", _call()],
+                tick(), ["call", 4, "RangeDimension", "link_data_array", "good",
+                         {"how": "dimcall", "dim": 0, "ref": 5, "args": [[-1]]}],
+                tick(), ["call", 4, "RangeDimension", "link_data_frame", "good",
+                         {"how": "dimcall", "dim": 1, "ref": 7, "args": [1]}],
+                tick(), dl(4, "RangeDimension", "label", "good", 5, "DimensionLink", "label", "good", how="dim", dim=0,
+                           value="through the link"),
+                tick(), dl(4, "RangeDimension", "unit", "good", 5, "DimensionLink", "unit", "good", how="dim", dim=0,
+                           value="mV"),
+                tick(), dl(4, "RangeDimension", "unit", "good", 7, "DimensionLink", "unit", "good", how="dim", dim=1,
+                           value="s"),
+                tick(), dl(4, "RangeDimension", "label", "early", 5, "DimensionLink", "label", "early", how="dim", dim=0,
+                           value=5),
+                ["set_auto", not auto],
+                tick(), dl(4, "RangeDimension", "label", "good", 5, "DimensionLink", "label", "good", how="dim", dim=0,
+                           value="again"),
+                tick(), dl(2, None, "__setitem__", "good", 12, None, "values", "good", how="setitem", key="p1",
+                           value=[6])]
+        out.append(("delegating: switch %s first" % ("on" if auto else "off"), ops))
+    return out
+
+
 BOUNDARY_SECONDS = [0, 1, 59, 60, 3599, 3600, 86399, 86400, 951782399, 951782400, 951868799, 951868800,
                     2147483647, 2147483648, 4102444800 - 86400, 4102444800 - 1]
 
@@ -1840,6 +1893,9 @@ def correspondence(ctx):
     for label, h in fh:
         histories.append((label, h))
         opdist["force_boundary." + label[6:]] = len([op for op in h if op[0].startswith("force_")])
+    for label, h in delegating_histories(rng):
+        histories.append((label, h))
+        opdist["call_delegating"] = opdist.get("call_delegating", 0) + len([op for op in h if op[0] == "call_delegating"])
     for k in range(ctx.budget(14, 150)):
         g = Gen(rng)
         histories.append(("random", g.history(rng.choice([40, 80, 120]))))
@@ -1863,7 +1919,7 @@ def correspondence(ctx):
             if cm != ci:
                 disagreements.append(Disagreement({"history": h[:k + 1], "at": k, "op": op}, cm, i))
                 break
-            if op[0] in ("call", "force_created", "force_updated", "create", "copy", "delete", "reopen"):
+            if op[0] in ("call", "call_delegating", "force_created", "force_updated", "create", "copy", "delete", "reopen"):
                 nontrivial.add(core.canon([op[:5], ci.get("res"), len(ci.get("stamps", []))]))
         if n == 1 and len(h) > 20:
             samples.append({"case": h[18], "model": mouts[18]})
@@ -2375,8 +2431,15 @@ def oracle(ctx, broken, hints):
     if not broken and ctx.quick():
         rv = [rv[rng.randrange(2)], rv[2]]
     hist += [h for _, h in refusal_histories(rng, rv, sample=None if broken or not ctx.quick() else 40)]
-    hist += [h for _, h in force_histories(rng)]
-    hist += [h for _, h in matrix_histories(rng, copies=True)]
+    # (quick tier on a tree where every obligation checked: a sample of the force and matrix histories, changing with
+    # the seed; everything when something is broken and in the thorough tier)
+    fh = [h for _, h in force_histories(rng)]
+    mh = [h for _, h in matrix_histories(rng, copies=True)]
+    if not broken and ctx.quick():
+        fh = rng.sample(fh, min(len(fh), 6))
+        mh = rng.sample(mh, min(len(mh), 26))
+    hist += fh
+    hist += mh
     g = Gen(rng)
     hist.append(g.sweep())
     systematic = len(hist)
@@ -2409,6 +2472,7 @@ def oracle(ctx, broken, hints):
     cached = ctx.__dict__.get("c19_on_sweep")        # the switch-on sessions the correspondence has run already
     try:
         n, f, cov = c19_off.run(ctx, rng, share=1.0 if full else 0.3, pristine=not ctx.quick(), second_pass=full,
+                                entity_share=1.0 if full else 0.6,
                                 on_share=(1.0 if broken else 0.0) if cached else (1.0 if full else 0.12))
         if cached:
             n += cached["calls"]
